@@ -9,6 +9,7 @@ package proxy
 import (
 	"context"
 	"fmt"
+	commonpb "go.temporal.io/api/common/v1"
 	"io"
 	"sync"
 	"testing"
@@ -37,9 +38,12 @@ type c06wCase struct {
 	// half-close, without waiting for them to arrive, and the source takes 2 ms to process each one: what was sent before
 	// a clean end must still arrive
 	Tail int `json:"tail,omitempty"`
+	// Big: the first replication message carries a history batch of 5 MiB (the proxy's own limit is 128 MiB; gRPC's
+	// default for a client that sets nothing is 4 MiB)
+	Big bool `json:"big,omitempty"`
 }
 
-const c06wRule = "wiring part: a real ClusterConnection in default or LCM mode (TCP both sides, or mux-server / mux-client towards the remote side with a second proxy as mux peer), real gRPC; the fake source sends 0-4 replication messages, the initiator 0-3 sync-state messages, then one of: initiator cancels, initiator half-closes (optionally right after a tail of 5-60 further sync-state messages that a slow source is still working through), source ends the RPC cleanly, source fails it, or the proxy is shut down (lifetime cancelled) with the stream idle; oracle: every message arrives at the other end, in order, unmodified; within 20 s of real time after the ending the source's handler has seen its stream end AND the initiator's Recv has returned (a proxy that is shut down counts as both sides ending: no stream may stay half-open behind it); non-trivial = messages flowed in both directions before the ending; distinct = distinct cases"
+const c06wRule = "wiring part: a real ClusterConnection in default or LCM mode (TCP both sides, or mux-server / mux-client towards the remote side with a second proxy as mux peer), real gRPC; the fake source sends 0-4 replication messages (in one case of five the first one carries a 5 MiB history batch), the initiator 0-3 sync-state messages, then one of: initiator cancels, initiator half-closes (optionally right after a tail of 5-60 further sync-state messages that a slow source is still working through), source ends the RPC cleanly, source fails it, or the proxy is shut down (lifetime cancelled) with the stream idle; oracle: every message arrives at the other end, in order, unmodified; within 20 s of real time after the ending the source's handler has seen its stream end AND the initiator's Recv has returned (a proxy that is shut down counts as both sides ending: no stream may stay half-open behind it); non-trivial = messages flowed in both directions before the ending; distinct = distinct cases"
 
 func c06wRun(c c06wCase) (viol string, harness error) {
 	edit := func(cfg *config.ClusterConnConfig) {
@@ -75,6 +79,9 @@ func c06wRun(c c06wCase) (viol string, harness error) {
 		for i := 1; i <= c.Msgs; i++ {
 			m := &adminservice.StreamWorkflowReplicationMessagesResponse{Attributes: &adminservice.StreamWorkflowReplicationMessagesResponse_Messages{
 				Messages: &replicationv1.WorkflowReplicationMessages{ExclusiveHighWatermark: int64(1000 + i)}}}
+			if c.Big && i == 1 {
+				m.GetMessages().ReplicationTasks = []*replicationv1.ReplicationTask{{SourceTaskId: 999, Data: &commonpb.DataBlob{Data: make([]byte, 5<<20)}}}
+			}
 			if err := stream.SendMsg(m); err != nil {
 				return err
 			}
@@ -107,7 +114,7 @@ func c06wRun(c c06wCase) (viol string, harness error) {
 	}
 	ctx, cancel := context.WithCancel(metadata.NewOutgoingContext(context.Background(), vfStreamMD(7, 3, 9, 2)))
 	defer cancel()
-	st, err := adminservice.NewAdminServiceClient(conn).StreamWorkflowReplicationMessages(ctx)
+	st, err := adminservice.NewAdminServiceClient(conn).StreamWorkflowReplicationMessages(ctx, grpc.MaxCallRecvMsgSize(64<<20))
 	if err != nil {
 		return "", fmt.Errorf("open: %v", err)
 	}
@@ -269,6 +276,7 @@ func TestVF_C06_Wiring(t *testing.T) {
 				run(t, c06wCase{Transport: tr, Msgs: 2, Acks: 1, End: e})
 			}
 			run(t, c06wCase{Transport: tr, Msgs: 1, Acks: 1, End: "initiatorCloseSend", Tail: 40})
+			run(t, c06wCase{Transport: tr, Msgs: 2, Acks: 1, End: "sourceEOF", Big: true})
 		}
 	}
 	rapid.Check(t, func(rt *rapid.T) {
@@ -280,6 +288,7 @@ func TestVF_C06_Wiring(t *testing.T) {
 			Acks:      rapid.IntRange(0, 3).Draw(rt, "acks"),
 			End:       rapid.SampledFrom([]string{"initiatorCancel", "initiatorCloseSend", "sourceEOF", "sourceErr", "shutdown", "shutdown"}).Draw(rt, "end"),
 		}
+		c.Big = c.Msgs > 0 && rapid.IntRange(0, 4).Draw(rt, "big") == 0
 		if c.End == "initiatorCloseSend" && rapid.Bool().Draw(rt, "withTail") {
 			c.Tail = rapid.IntRange(5, 60).Draw(rt, "tail")
 		}
